@@ -69,8 +69,8 @@ RLIMIT_AS = 3 << 30
 
 SIZES = {
     # per shard: corpus, mut, soup, attr, splice, random pumps ; shards
-    "quick": dict(shards=16, corpus=30, mut=1700, soup=450, attr=750, splice=300, rpump=3, pump_maxlen=32768, lexpump_big_every=40),
-    "thorough": dict(shards=32, corpus=100, mut=22000, soup=7000, attr=11000, splice=4500, rpump=20, pump_maxlen=131072, lexpump_big_every=8),
+    "quick": dict(shards=16, corpus=30, mut=1700, soup=450, attr=750, splice=300, rpump=3, pump_maxlen=32768, lexpump_big_every=40, trunc_stride=40),
+    "thorough": dict(shards=32, corpus=100, mut=22000, soup=7000, attr=11000, splice=4500, rpump=20, pump_maxlen=131072, lexpump_big_every=8, trunc_stride=1),
 }
 
 
@@ -89,7 +89,7 @@ def plan(tier, seed):
                      "corpus": z["corpus"], "mut": int(z["mut"] * scale), "soup": int(z["soup"] * scale),
                      "attr": int(z["attr"] * scale), "splice": int(z["splice"] * scale), "rpump": int(z["rpump"] * scale),
                      "fixed_pumps": True, "deep_probe": i == 0, "pump_maxlen": z["pump_maxlen"],
-                     "lexpump_big_every": z["lexpump_big_every"]})
+                     "lexpump_big_every": z["lexpump_big_every"], "trunc_stride": z["trunc_stride"]})
     return jobs
 
 
@@ -276,6 +276,17 @@ def task_list(job):
             tasks.append(("lexpump", k))
             if (k // job["nshards"]) % job.get("lexpump_big_every", 10) == job["seed"] % job.get("lexpump_big_every", 10):
                 tasks.append(("lexpump-big", k))
+    for k, fam in enumerate(c07_mut.dag_families()):  # compact DAGs: alias doubling chains in every use position
+        if k % job["nshards"] == job["shard"] and job.get("dagpump", True):
+            tasks.append(("dagpump", k))
+    for k in range(c07_mut.eof_matrix_size()):  # input ends in every proper token prefix, in every syntactic position
+        if k % job["nshards"] == job["shard"] and job.get("eofmatrix", True):
+            tasks.append(("eofmatrix", k))
+    if job.get("trunc_stride"):
+        from xv import corpus
+        for k in range(len(corpus.chunks())):  # truncation of corpus chunks at token boundaries / inside literals
+            if k % job["nshards"] == job["shard"]:
+                tasks.append(("trunc", k))
     for k in range(c07_mut.lit_matrix_size()):  # every (literal, builtin type, context) combination once per run
         if k % job["nshards"] == job["shard"] and job.get("litmatrix", True):
             tasks.append(("litmatrix", k))
@@ -306,6 +317,8 @@ def gen_input(job, kind, k):
         return job["text"], None, {"kind": "replay"}
     if kind == "litmatrix":
         return c07_mut.lit_matrix_text(k), None, {"kind": kind}
+    if kind == "eofmatrix":
+        return c07_mut.eof_matrix_text(k), None, {"kind": kind}
     if kind == "witness":
         f = witness_files()[k]
         with open(f, encoding="utf-8") as fh:
@@ -640,8 +653,9 @@ def child_run(job, tasks, a, out: ChildOut):
         journal(text)
         out.line("S", {"t": tidx, "sub": sub, "len": len(text), "cpu": time.process_time(), "unreg": unreg})
         rec = parse_once(text, unreg, job.get("implicit", True), verify_stage)
-        if rec["cpu"] > budget(len(text)):
-            # measure again and keep the cheaper run: a one-off cost (collector, page faults) is not the parser's
+        if budget(len(text)) < rec["cpu"] <= 3 * budget(len(text)):
+            # near the budget: measure again and keep the cheaper run (a one-off cost - collector, page faults - is not
+            # the parser's); far above it a second run would only double the cost of a hostile input
             b.c("over_budget_remeasured")
             rec2 = parse_once(text, unreg, job.get("implicit", True), False)
             if rec2["cpu"] < rec["cpu"]:
@@ -655,30 +669,42 @@ def child_run(job, tasks, a, out: ChildOut):
     for tidx in range(a, len(tasks)):
         b = state["b"]
         kind, k = tasks[tidx]
-        if kind in ("pump", "rpump", "lexpump", "lexpump-big"):
+        if kind == "trunc":
+            base = G.seeds[k]
+            pts = c07_mut.truncation_points(base)
+            stride = max(1, int(job.get("trunc_stride", 1)))
+            b.c("trunc_chunks")
+            for j, pt in enumerate(pts):
+                if (j + k + job["seed"]) % stride:
+                    continue
+                monitored(base[:pt], base, {"kind": kind, "chunk": G.chunks[k][0], "cut": pt}, tidx, pt, (j + k) % 3 != 0)
+        elif kind in ("pump", "rpump", "lexpump", "lexpump-big", "dagpump"):
             rng = task_rng(job, kind, k)
             if kind == "pump":
                 fam = c07_mut.PUMPS[k]
+            elif kind == "dagpump":
+                fam = c07_mut.dag_families()[k]
             elif kind == "rpump":
                 fam = c07_mut.random_pump(rng, G.pool)
             else:
                 fam = c07_mut.lex_matrix_family(k, kind == "lexpump-big")
             out.line("F", {"family": fam[0], "prefix": fam[1][:300], "unit": (fam[2] or "<numbered items>")[:300],
-                           "suffix": (fam[3] if fam[3] is not None else "<mirrored closers>")[:300]})
+                           "suffix": (fam[3] if fam[3] is not None else "<mirrored closers>")[:300],
+                           "text_at_k4": c07_mut.pump_text(fam, 4)[:600]})
             unreg = True
             ladder = []
             kk = 16 if kind == "pump" else 8
             ks = list(fam[4]) if isinstance(fam[4], list) else None
             if ks:
                 kk = ks.pop(0)
-            b.c("pump_ladders" if not kind.startswith("lex") else "lex_matrix_ladders")
+            b.c("lex_matrix_ladders" if kind.startswith("lex") else "dag_ladders" if kind == "dagpump" else "pump_ladders")
             while kk <= (fam[4] if kind == "rpump" else 1 << 20):
                 text = c07_mut.pump_text(fam, kk)
                 if len(text) > maxlen:
                     break
                 rec, text = monitored(text, None, {"kind": kind, "family": fam[0], "k": kk}, tidx, kk, unreg, verify_stage=False)
                 ladder.append((kk, rec))
-                b.c("pump_steps" if not kind.startswith("lex") else "lex_matrix_steps")
+                b.c("lex_matrix_steps" if kind.startswith("lex") else "dag_steps" if kind == "dagpump" else "pump_steps")
                 if rec["outcome"] == "crash" and rec["etype"] in ("RecursionError", "MemoryError"):
                     break
                 if rec["cpu"] > budget(len(text)):
@@ -709,7 +735,7 @@ def child_run(job, tasks, a, out: ChildOut):
                     g0 = prev / max(ladder[-3][1]["cpu"], 4e-3)
                     if g0 < 3.0:
                         g = min(g, g0)
-                site = ("pump:" + fam[0]) if kind == "pump" else (r1.get("slow_site") or r1.get("site") or fam[0])
+                site = ("pump:" + fam[0]) if kind in ("pump", "dagpump") else (r1.get("slow_site") or r1.get("site") or fam[0])
                 wit = {"family": fam[0], "prefix": fam[1], "unit": fam[2], "suffix": fam[3], "k": k1, "len": r1["len"],
                        "cpu_s": [round(r["cpu"], 4) for _, r in ladder], "ks": [kq for kq, _ in ladder], "budget_s": budget(r1["len"]),
                        "text_head": c07_mut.pump_text(fam, 4)[:400]}
@@ -726,7 +752,7 @@ def child_run(job, tasks, a, out: ChildOut):
         else:
             text, seed_text, meta = gen_input(job, kind, k)
             rng = task_rng(job, kind + "/ctx", k)
-            unreg = job["unreg"] if kind == "text" else (True if kind in ("witness", "litmatrix") else rng.random() < 0.7)
+            unreg = job["unreg"] if kind == "text" else (True if kind in ("witness", "litmatrix", "eofmatrix") else rng.random() < 0.7)
             rec, text = monitored(text, seed_text, meta, tidx, 0, unreg)
             if rec["cpu"] > budget(len(text)):
                 b.c("over_budget_inputs")
@@ -920,7 +946,7 @@ def work(job):
             total.c("inputs_lost_in_killed_batch", max(0, tidx - st["next"]))
             wit = {"text": text if len(text) <= 20000 else text[:10000] + "\n...<cut>...\n" + text[-5000:], "len": ln,
                    "task": [kind, k, sub], "allow_unregistered": unreg}
-            if kind in ("pump", "rpump", "lexpump", "lexpump-big") and st["family"]:
+            if kind in ("pump", "rpump", "lexpump", "lexpump-big", "dagpump") and st["family"]:
                 wit.update(st["family"], k=sub)
             if len(text) <= 20000:
                 wit["replay_job"] = replay_job(text, unreg)
@@ -1011,6 +1037,9 @@ def finish(agg, tier):
     need("lex_matrix_ladders", 15000)
     need("inputs_witness", 30)
     need("inputs_litmatrix", 14000)
+    need("inputs_eofmatrix", 4000)
+    need("inputs_trunc", 10000)
+    need("dag_ladders", 60)
     need("string_regex_probe_runs", z["shards"])
     if len(agg.sets.get("exit_functions", ())) < 120:
         reasons.append(f"only {len(agg.sets.get('exit_functions', ()))} distinct parser exit functions reached (< 120)")
